@@ -1551,6 +1551,53 @@ where
                 })
             }));
         }
+        // query: gadget query point inside the wire-polynomial domain (an out-of-domain argument that
+        // would reveal a wire value) for each gadget position, right lengths everywhere else
+        {
+            let (cell, build, inst) = (cell.clone(), build.clone(), inst.clone());
+            let t0 = &tc0.typ;
+            let ngad = t0.gadget().len();
+            let tuples: Vec<Vec<u16>> = product(&[ngad.max(1), 6]);
+            fams.push(fam(&format!("flp/{inst}/query_root_of_unity"), tuples, move |t| {
+                let (gi, ki) = (t[0] as usize, t[1] as usize);
+                let klab = ["1", "-1", "w", "w^2", "w^-1", "w^(P/2+1)"][ki];
+                let (cell, build, inst) = (cell.clone(), build.clone(), inst.clone());
+                prep("flp/query", format!("gadget_point[{gi}]={klab}@{inst}"), json!({"gadget": gi, "point": klab}), move |cx| {
+                    let tc = cell.get_or_init(build);
+                    let ty = &tc.typ;
+                    let gadgets = ty.gadget();
+                    if gi >= gadgets.len() {
+                        cx.skip("no such gadget");
+                        return;
+                    }
+                    let mut st = seed ^ fnv(inst.as_bytes()) ^ 0x5151;
+                    let Some(enc) = cx.ok("setup/encode_measurement", Exp::MustOk, || ty.encode_measurement(&tc.valid)) else { return };
+                    let pr: Vec<F> = rnd_vec(ty.prove_rand_len(), &mut st);
+                    let jr: Vec<F> = rnd_vec(ty.joint_rand_len(), &mut st);
+                    let mut qr: Vec<F> = rnd_vec(ty.query_rand_len(), &mut st);
+                    let Some(proof) = cx.ok("setup/prove", Exp::MustOk, || ty.prove(&enc, &pr, &jr)) else { return };
+                    cx.outcome.clear();
+                    // wire-polynomial domain of this gadget: P = next_power_of_two(1 + calls); w = principal P-th root
+                    let pp = (1 + gadgets[gi].calls()).next_power_of_two();
+                    let w = F::root(pp.trailing_zeros() as usize).expect("root of unity of the wire domain");
+                    let pw = |e: usize| (0..e).fold(F::one(), |a, _| a * w);
+                    let point = match ki {
+                        0 => F::one(),
+                        1 => -F::one(),
+                        2 => w,
+                        3 => pw(2),
+                        4 => pw(pp - 1),
+                        _ => pw(pp / 2 + 1),
+                    };
+                    // -1 lies in the domain only when P >= 2
+                    let in_domain = (0..pp).any(|e| pw(e) == point);
+                    let off = ty.query_rand_len() - gadgets.len();
+                    qr[off + gi] = point;
+                    let exp = if in_domain { Exp::MustErr } else { Exp::Any };
+                    drop(cx.call("", exp, || ty.query(&enc, &proof, &qr, &jr, 1)));
+                })
+            }));
+        }
     }
 }
 
